@@ -56,6 +56,7 @@ def main(pid):
         for old, new in mapping.items():
             s = re.sub(rf"\b{old}[0-9a-f]*\b", new, s)
         fp.write_text(s)
+    print(sh(sys.executable, "-m", "harness.tools.anchor_lock", cwd=str(VERIF)).stdout.strip())
     return 0
 
 
